@@ -1,18 +1,19 @@
 (* C06 — entry points of the correspondence driver: kind 6 = emitter-level
-   label traces (Spec.v), kind 7 = whole-swarm runs (SpecSwarm.v). *)
+   label traces (Spec.v), kind 7 = whole-swarm runs (SpecSwarm.v),
+   kind 8 = swarm-level runs with fake transport conns, inbound streams and mid-run listings (SpecSw.v + SpecSt.v). *)
 From Coq Require Import List ZArith.
-From Verif Require Import lib.Wire c06.Spec c06.SpecSwarm c06.SpecSw.
+From Verif Require Import lib.Wire c06.Spec c06.SpecSwarm c06.SpecSw c06.SpecSt.
 Import ListNotations.
 
 Definition conform_case (t : list Z) : list Z :=
   match t with
   | 7%Z :: _ => conform_swarm t
-  | 8%Z :: _ => conform_sw t
+  | 8%Z :: _ => conform_st t
   | _ => conform_emitter t
   end.
 Definition monitor_case (t : list Z) : list Z :=
   match t with
   | 7%Z :: _ => monitor_swarm t
-  | 8%Z :: _ => monitor_sw t
+  | 8%Z :: _ => monitor_st t
   | _ => monitor_emitter t
   end.
